@@ -103,7 +103,10 @@ def _user_punch(rng, num, dup):
     pat = []
     for i in range(n):
         if rng.random() < 0.25:
-            lines.append(' %d PUNCH "s%d"' % (10 * (i + 1), rng.randint(0, 999)))
+            word = "s%d" % rng.randint(0, 999)
+            if rng.random() < 0.6:
+                word = (word + "_abcdefghijklmnopqrstuvwxyz0123456789")[:rng.choice([5, 11, 12, 13, 16, 19, 20, 21, 30])]      # around the 12- and 20-character field widths
+            lines.append(' %d PUNCH "%s"' % (10 * (i + 1), word))
             pat.append("s")
         elif rng.random() < 0.15:
             lines.append(' %d PUNCH %s, "t%d", %s' % (10 * (i + 1), rng.choice(exprs), i, rng.choice(exprs)))
@@ -188,7 +191,7 @@ def cell_matches(cell, text):
         return t == ""
     if kind == "s":
         v = cell[1].strip()
-        return t == v or t == v[:12].strip() or t == v[:20].strip()
+        return t == v      # strings are never truncated: up to the field width (12 / 20) they are padded, beyond it they are written in full
     if kind == "l":
         return t == str(int(cell[1]))
     if kind == "d":
